@@ -223,6 +223,71 @@ Theorem C10_stress_ok_sound : forall workers pairs dones counter free,
 Proof. exact stress_ok_sound. Qed.
 Print Assumptions C10_stress_ok_sound.
 
+(* A STARTED Run that fails, whatever the class of its error (plain, *comm.CommunicationError,
+   tss.Error, SubsetError, CoordinatorError) and whether or not the peers answer a retry: the outcome
+   is one of the feasible ones (covered by every theorem above), the ledger passes the judge; a
+   process that is not Retryable - every keygen and resharing - is run exactly once. *)
+Theorem C10_started_run_fails_safe : forall k f a,
+  feasible k (failed_outcome k f a) = true /\
+  session_ok k (session_events New k (failed_outcome k f a)) = true.
+Proof. exact (fun k f a => conj (failed_outcome_feasible k f a) (failed_safe k f a)). Qed.
+Print Assumptions C10_started_run_fails_safe.
+
+Theorem C10_not_retryable_run_once : forall k f a, is_signing k = false ->
+  failed_outcome k f a = RanFailed /\
+  count (fun e => match e with RunBegin => true | _ => false end)
+        (session_events New k (failed_outcome k f a)) = 1.
+Proof. exact failed_run_once. Qed.
+Print Assumptions C10_not_retryable_run_once.
+
+(* Re-running the ECDSA keygen after a started Run failed (Retryable() = true) is refuted: the second
+   Run asks for the lock the first one still holds - the ledger blocks and the judge rejects it. *)
+Theorem C10_retried_keygen_refuted :
+  mrun false (retried_anyway_events EcdsaKeygen) = MBlocked /\
+  session_ok EcdsaKeygen (retried_anyway_events EcdsaKeygen) = false.
+Proof. exact retried_keygen_blocks. Qed.
+Print Assumptions C10_retried_keygen_refuted.
+
+(* ABNORMAL TERMINATION: a method of the process panics while Execute is using it (before Run, inside
+   Run after the process began, in Retryable() after Run failed).  The deferred cleanup runs before the
+   panic leaves Execute: every kind, every such outcome - feasible, the ledger passes the judge, the
+   lock is free at the end (so are sequences and overlapping sessions containing them, by the general
+   theorems above, which quantify over all outcomes). *)
+Theorem C10_panics_give_lock_back : forall k o,
+  (o = PanicBeforeStart \/ o = PanicInRunLate \/ o = PanicAfterRun) ->
+  feasible k o = true /\ session_ok k (session_events New k o) = true /\
+  mrun false (session_events New k o) = MOk false.
+Proof. exact panic_outcomes_safe. Qed.
+Print Assumptions C10_panics_give_lock_back.
+
+Theorem C10_panic_ledgers : forall k,
+  session_events New k PanicBeforeStart = ctor_events k ++ stop_events New k false /\
+  session_events New k PanicInRunLate = session_events New k RanFailed /\
+  session_events New k PanicAfterRun = session_events New k RanFailed.
+Proof. exact panic_ledgers. Qed.
+Print Assumptions C10_panic_ledgers.
+
+(* A cleanup that is skipped when a process panics (the panic recovered, Execute returning before
+   Stop) is refuted for every kind that holds the lock across Run: the lock stays taken. *)
+Theorem C10_skipped_cleanup_refuted : forall k, exclusive k = true ->
+  mrun false (no_stop_events k) = MOk true /\ session_ok k (no_stop_events k) = false.
+Proof. exact skipped_cleanup_leaks. Qed.
+Print Assumptions C10_skipped_cleanup_refuted.
+
+(* Non-vacuity of the failure / panic theorems. *)
+Example C10_failed_panic_nonvacuous :
+  failed_outcome EcdsaKeygen FComm true = RanFailed /\ failed_outcome EcdsaSigning FComm true = Rerun /\
+  failed_outcome EcdsaSigning FPlain true = RanFailed /\ failed_outcome FrostSigning FSubset false = RanFailed /\
+  session_events New EcdsaKeygen (failed_outcome EcdsaKeygen FTss true) = [RunBegin; L; RunEnd; U] /\
+  retried_anyway_events EcdsaKeygen = [RunBegin; L; RunEnd; RunBegin; L; RunEnd; U] /\
+  session_events New EcdsaKeygen PanicBeforeStart = [] /\
+  session_events New EcdsaKeygen PanicInRunLate = [RunBegin; L; RunEnd; U] /\
+  session_events New FrostResharing PanicInRunLate = [L; Get; RunBegin; RunEnd; U] /\
+  session_events New FrostKeygen PanicBeforeStart = [L; U] /\
+  no_stop_events FrostResharing = [L; Get; RunBegin; RunEnd] /\
+  all_feasible [(FrostResharing, PanicInRunLate); (FrostKeygen, RanFailed)] = true.
+Proof. vm_compute. repeat split. Qed.
+
 (* The code as found: an ECDSA keygen whose coordinator stays silent unlocks an unlocked mutex
    (fatal), and a refused constructor-locking process leaks the lock so that the next session on
    that store blocks. *)
